@@ -21,7 +21,10 @@ pub static DEF: CheckDef = CheckDef {
            activation none/relu/sigmoid/softmax x input single vector/image, [1,..], [b,..], [b1,b2,..]; parameters \
            are set and read through Layer::parameters(); integer parameters and inputs give bit-exact comparison for \
            activations none/relu, scaled tolerance otherwise; model: stacks of 1..3 layers, Model::forward == \
-           composition; cost: mse and cross-entropy closures on random output/target pairs of rank 1..3 vs their \
+           composition; model-reuse: 2..4 calls of one Model without an update in between, on the same input handle, a \
+           reshaped view of it with the batch regrouped ([b,..] / [1,b,..] / [b1,b2,..]), a tracked clone or a fresh \
+           batch, each output (and the loss returned by an optional backward) compared with the composition on that \
+           call's input; cost: mse and cross-entropy closures on random output/target pairs of rank 1..3 vs their \
            formulas, and Model::backward's return value == sum of the cost array. Non-trivial = batch of >= 2 rows/images \
            or >= 2 layers; distinct = distinct (family, spec, input dims).",
     floors,
